@@ -231,7 +231,7 @@ macro_rules! list_elem { ($($t:ty),*) => {$(
         fn vec_from_val(v: &Val) -> Option<Vec<Self>> { match v { Val::List(xs) => xs.iter().map(<$t>::from_val).collect(), _ => None } }
     }
 )*} }
-list_elem!(u16, u32, u64, usize, u128, i64, bool, char, f64, (), String);
+list_elem!(u16, u32, u64, usize, u128, i64, bool, char, f64, (), String, i8, i16, i32, i128, isize, f32, std::time::Duration);
 impl Elem for u8 {
     fn slice_to_val(xs: &[Self]) -> Val {
         Val::Bytes(xs.to_vec())
@@ -255,6 +255,22 @@ impl Render for f64 { fn render(self) -> Val { Val::Nat(self.to_bits() as u128) 
 impl Render for &f64 { fn render(self) -> Val { Val::Nat(self.to_bits() as u128) } }
 impl ToVal for f64 { fn to_val(&self) -> Val { Val::Nat(self.to_bits() as u128) } }
 impl FromVal for f64 { fn from_val(v: &Val) -> Option<Self> { match v { Val::Nat(n) => u64::try_from(*n).ok().map(f64::from_bits), _ => None } } }
+// the other signed integers and f32 travel as the bit pattern of their width, a Duration as its nanoseconds (< 2^64)
+macro_rules! bits_impl { ($($t:ty => $u:ty),*) => {$(
+    impl Render for $t { fn render(self) -> Val { Val::Nat(self as $u as u128) } }
+    impl Render for &$t { fn render(self) -> Val { Val::Nat(*self as $u as u128) } }
+    impl ToVal for $t { fn to_val(&self) -> Val { Val::Nat(*self as $u as u128) } }
+    impl FromVal for $t { fn from_val(v: &Val) -> Option<Self> { match v { Val::Nat(n) => <$u>::try_from(*n).ok().map(|x| x as $t), _ => None } } }
+)*} }
+bits_impl!(i8 => u8, i16 => u16, i32 => u32, i128 => u128, isize => usize);
+impl Render for f32 { fn render(self) -> Val { Val::Nat(self.to_bits() as u128) } }
+impl Render for &f32 { fn render(self) -> Val { Val::Nat(self.to_bits() as u128) } }
+impl ToVal for f32 { fn to_val(&self) -> Val { Val::Nat(self.to_bits() as u128) } }
+impl FromVal for f32 { fn from_val(v: &Val) -> Option<Self> { match v { Val::Nat(n) => u32::try_from(*n).ok().map(f32::from_bits), _ => None } } }
+impl Render for std::time::Duration { fn render(self) -> Val { Val::Nat(self.as_nanos()) } }
+impl Render for &std::time::Duration { fn render(self) -> Val { Val::Nat(self.as_nanos()) } }
+impl ToVal for std::time::Duration { fn to_val(&self) -> Val { Val::Nat(self.as_nanos()) } }
+impl FromVal for std::time::Duration { fn from_val(v: &Val) -> Option<Self> { match v { Val::Nat(n) => u64::try_from(*n).ok().map(std::time::Duration::from_nanos), _ => None } } }
 impl Render for bool { fn render(self) -> Val { Val::Nat(self as u128) } }
 impl Render for &bool { fn render(self) -> Val { Val::Nat(*self as u128) } }
 impl ToVal for bool { fn to_val(&self) -> Val { Val::Nat(*self as u128) } }
@@ -329,6 +345,7 @@ tuple_impl!(A 0);
 tuple_impl!(A 0, B 1);
 tuple_impl!(A 0, B 1, C 2);
 tuple_impl!(A 0, B 1, C 2, D 3);
+tuple_impl!(A 0, B 1, C 2, D 3, E 4, F 5, G 6, H 7, I 8, J 9);
 tuple_impl!(A 0, B 1, C 2, D 3, E 4, F 5, G 6, H 7, I 8, J 9, K 10, L 11, M 12, N 13, O 14, P 15);
 pub const CAP: usize = 1 << 20;
 
@@ -351,7 +368,50 @@ use flatcontainer::{ColumnsRegion, MirrorRegion, OptionRegion, OwnedRegion, Resu
 macro_rules! mirror_ritem { ($($t:ty),*) => {$(
     impl RItem for MirrorRegion<$t> { fn render(item: $t) -> Val { Render::render(item) } }
 )*} }
-mirror_ritem!(u8, u16, u32, u64, usize, u128, i64, f64, bool, char, ());
+mirror_ritem!(u8, u16, u32, u64, usize, u128, i64, f64, bool, char, (), i8, i16, i32, i128, isize, f32, std::time::Duration);
+
+/// Owned input forms arrive with spare capacity: `Vec`s and `String`s whose capacity exceeds their length, at every
+/// level of nesting (what pushing element by element, `with_capacity`, `pop` or `truncate` leave behind).
+pub trait Spare {
+    fn spare(self) -> Self;
+}
+macro_rules! spare_noop { ($($t:ty),*) => {$( impl Spare for $t { fn spare(self) -> Self { self } } )*} }
+spare_noop!(u8, u16, u32, u64, usize, u128, i8, i16, i32, i64, i128, isize, f32, f64, bool, char, (), std::time::Duration);
+impl Spare for String {
+    fn spare(mut self) -> Self {
+        self.reserve(5);
+        self
+    }
+}
+impl<T: Spare> Spare for Vec<T> {
+    fn spare(self) -> Self {
+        let mut v: Vec<T> = self.into_iter().map(Spare::spare).collect();
+        v.reserve(3);
+        v
+    }
+}
+impl<T: Spare> Spare for Option<T> {
+    fn spare(self) -> Self {
+        self.map(Spare::spare)
+    }
+}
+impl<T: Spare, E: Spare> Spare for Result<T, E> {
+    fn spare(self) -> Self {
+        match self {
+            Ok(x) => Ok(x.spare()),
+            Err(e) => Err(e.spare()),
+        }
+    }
+}
+macro_rules! spare_tuple { ($($n:ident $i:tt),+) => {
+    impl<$($n: Spare),+> Spare for ($($n,)+) { fn spare(self) -> Self { ($(self.$i.spare(),)+) } }
+} }
+spare_tuple!(A 0);
+spare_tuple!(A 0, B 1);
+spare_tuple!(A 0, B 1, C 2);
+spare_tuple!(A 0, B 1, C 2, D 3);
+spare_tuple!(A 0, B 1, C 2, D 3, E 4, F 5, G 6, H 7, I 8, J 9);
+spare_tuple!(A 0, B 1, C 2, D 3, E 4, F 5, G 6, H 7, I 8, J 9, K 10, L 11, M 12, N 13, O 14, P 15);
 impl<T: Elem + Clone> RItem for OwnedRegion<T> {
     fn render(item: &[T]) -> Val {
         T::slice_to_val(item)
@@ -440,6 +500,7 @@ tuple_ritem!(TupleARegion; A 0);
 tuple_ritem!(TupleABRegion; A 0, B 1);
 tuple_ritem!(TupleABCRegion; A 0, B 1, C 2);
 tuple_ritem!(TupleABCDRegion; A 0, B 1, C 2, D 3);
+tuple_ritem!(TupleABCDEFGHIJRegion; A 0, B 1, C 2, D 3, E 4, F 5, G 6, H 7, I 8, J 9);
 tuple_ritem!(TupleABCDEFGHIJKLMNOPRegion; A 0, B 1, C 2, D 3, E 4, F 5, G 6, H 7, I 8, J 9, K 10, L 11, M 12, N 13, O 14, P 15);
 
 macro_rules! seq_item_body { ($r:ident, $item:ident) => {{
